@@ -97,7 +97,7 @@ def family_of(cpu):
 
 
 def budget(tier):
-    return dict(examples=14000 if tier == "quick" else 200000, shards=16)
+    return dict(examples=7000 if tier == "quick" else 200000, shards=16)
 
 
 # ---------------------------------------------------------------- generator
